@@ -386,6 +386,13 @@ func genC20(tier string) []Scenario {
 		}
 		out = append(out, waitScn{kind: kFuncR, w: w, n: 3, cancelJ: -1, bound: 0, fb: true}.scenario())
 	}
+	// the same node object again after a run that ended badly; runs nested inside a retried exec
+	for _, w := range []time.Duration{time.Millisecond, time.Hour} {
+		for _, form := range []string{"struct node", "function node", "batch node"} {
+			out = append(out, rerunWaitScenario(form, w))
+		}
+		out = append(out, nestedRunWaitScenario(w, false), nestedRunWaitScenario(w, true))
+	}
 	// the retrying node inside (nested) flows: the context error must survive the flow boundaries
 	for _, kind := range []int{kBase, kFuncR} {
 		for _, w := range []time.Duration{time.Millisecond, time.Hour} {
@@ -418,4 +425,134 @@ func genC20(tier string) []Scenario {
 		}
 	}
 	return out
+}
+
+// rerunWaitScenario: the SAME node object is run again right after a run that ended badly —
+// every attempt failed, or the run was cancelled while it sat in the retry wait.  The second run
+// is a run like any other: no wait before its first attempt, w between its attempts, none after
+// the last.  (builder = function-style node, else a struct node embedding *BaseNode; batch = the
+// node is a one-item batch node.)
+func rerunWaitScenario(form string, w time.Duration) Scenario {
+	var label string
+	body := func() {
+		firstEnd := []string{"all attempts failed", "cancelled during the wait", "succeeded at once"}[core.Choose(3)]
+		label = form + " after a run that " + firstEnd
+		var starts, ends []int64
+		mode := "fail"
+		exec := func() (any, error) {
+			starts = append(starts, core.VNow())
+			ends = append(ends, core.VNow())
+			if mode == "ok" {
+				return 1, nil
+			}
+			return nil, errTable[0][len(starts)%8]
+		}
+		var node flyt.Node
+		switch form {
+		case "struct node":
+			node = &waitNode{BaseNode: flyt.NewBaseNode(flyt.WithMaxRetries(2), flyt.WithWait(w)), exec: exec, post: func() {}}
+		case "function node":
+			node = flyt.NewNode().WithMaxRetries(2).WithWait(w).WithExecFuncAny(func(context.Context, any) (any, error) { return exec() })
+		default:
+			node = flyt.NewBatchNode().WithMaxRetries(2).WithWait(w).
+				WithPrepFunc(func(context.Context, *flyt.SharedStore) ([]flyt.Result, error) {
+					return []flyt.Result{flyt.NewResult(0)}, nil
+				}).
+				WithExecFunc(func(context.Context, flyt.Result) (flyt.Result, error) {
+					v, e := exec()
+					if e != nil {
+						return flyt.Result{}, e
+					}
+					return flyt.NewResult(v), nil
+				})
+		}
+		// ---- the earlier run
+		switch firstEnd {
+		case "all attempts failed":
+			flyt.Run(context.Background(), node, flyt.NewSharedStore())
+		case "succeeded at once":
+			mode = "ok"
+			flyt.Run(context.Background(), node, flyt.NewSharedStore())
+			mode = "fail"
+		default:
+			ctx, cancel := core.WithCancel(context.Background())
+			core.Go("harness:canceller", func() {
+				core.Sleep(w / 2) // the run is inside its first retry wait by then
+				cancel()
+			})
+			flyt.Run(ctx, node, flyt.NewSharedStore())
+			core.WaitQuiescent()
+		}
+		// ---- the run under test, started at once
+		starts, ends = nil, nil
+		t0 := core.VNow()
+		flyt.Run(context.Background(), node, flyt.NewSharedStore())
+		t1 := core.VNow()
+		if len(starts) != 2 {
+			core.Problem("%s: the second run made %d attempts, budget 2", label, len(starts))
+			return
+		}
+		if starts[0] != t0 {
+			core.Problem("%s: the first attempt of the second run started %v after the run started: there must be no wait before the first attempt", label, time.Duration(starts[0]-t0))
+		}
+		if gap := time.Duration(starts[1] - ends[0]); gap < w {
+			core.Problem("%s: only %v between the attempts of the second run, configured wait %v", label, gap, w)
+		}
+		if t1 != ends[1] {
+			core.Problem("%s: the second run returned %v after its last attempt ended", label, time.Duration(t1-ends[1]))
+		}
+	}
+	return Scenario{Name: fmt.Sprintf("wait rerun-of-the-same-node form=%s w=%v", form, w), Bound: 1, Body: body, Check: stdCheck(func() string { return label })}
+}
+
+// nestedRunWaitScenario: an outer node (budget 2, no wait of its own) whose exec drives an inner
+// node (budget 2, wait w) with the context it was handed, as a node that runs a sub-flow per
+// attempt does.  Every run of the inner node is a run like any other, whichever outer attempt
+// started it: no wait before its first attempt, w before its second.
+func nestedRunWaitScenario(w time.Duration, outerBatch bool) Scenario {
+	var label string
+	body := func() {
+		type rec struct{ outer, start, end int64 }
+		var inner []rec
+		var innerRunStart []int64
+		outerAttempt := 0
+		innerNode := flyt.NewNode().WithMaxRetries(2).WithWait(w).WithExecFuncAny(func(context.Context, any) (any, error) {
+			inner = append(inner, rec{int64(outerAttempt), core.VNow(), core.VNow()})
+			return nil, errTable[0][len(inner)%8]
+		})
+		outerExec := func(ctx context.Context) error {
+			outerAttempt++
+			innerRunStart = append(innerRunStart, core.VNow())
+			_, err := flyt.Run(ctx, flyt.NewFlow(innerNode), flyt.NewSharedStore())
+			return err
+		}
+		var node flyt.Node
+		if outerBatch {
+			node = flyt.NewBatchNode().WithMaxRetries(2).
+				WithPrepFunc(func(context.Context, *flyt.SharedStore) ([]flyt.Result, error) {
+					return []flyt.Result{flyt.NewResult(0)}, nil
+				}).
+				WithExecFunc(func(ctx context.Context, _ flyt.Result) (flyt.Result, error) {
+					return flyt.Result{}, outerExec(ctx)
+				})
+		} else {
+			node = flyt.NewNode().WithMaxRetries(2).WithExecFuncAny(func(ctx context.Context, _ any) (any, error) { return nil, outerExec(ctx) })
+		}
+		flyt.Run(context.Background(), node, flyt.NewSharedStore())
+		label = fmt.Sprintf("outer attempts=%d inner attempts=%d", outerAttempt, len(inner))
+		if outerAttempt != 2 || len(inner) != 4 {
+			core.Problem("outer exec ran %d times and the inner exec %d times, want 2 and 4", outerAttempt, len(inner))
+			return
+		}
+		for o := 0; o < 2; o++ {
+			a, b := inner[2*o], inner[2*o+1]
+			if a.start != innerRunStart[o] {
+				core.Problem("inner run started by outer attempt %d: its first attempt began %v after the run started: there must be no wait before a first attempt", o, time.Duration(a.start-innerRunStart[o]))
+			}
+			if gap := time.Duration(b.start - a.end); gap < w {
+				core.Problem("inner run started by outer attempt %d: only %v between its attempts, configured wait %v", o, gap, w)
+			}
+		}
+	}
+	return Scenario{Name: fmt.Sprintf("wait nested-run-inside-a-retried-exec w=%v outer-batch=%v", w, outerBatch), Bound: 0, Body: body, Check: stdCheck(func() string { return label })}
 }
